@@ -3,8 +3,8 @@
 import json, os, shutil, subprocess, sys
 TESTS = {"C01": "tests/test_cryomotl.py", "C03": "tests/test_cryomotl.py,tests/test_starfileio.py", "C05": "tests/test_cryomotl.py", "C06": "tests/test_geom.py,tests/test_cryomotl.py", "C08": "tests/test_cryomotl.py",
          "C09": "tests/test_cryomotl.py", "C11": "tests/test_cryomap.py", "C13": "tests/test_cryomask.py,tests/test_cryomap.py", "C15": "tests/test_tiltstack.py,tests/test_ioutils.py", "C20": "tests/test_cryomap.py,tests/test_geom.py",
-         "C02": "tests/test_starfileio.py,tests/test_cryomotl.py", "C04": "tests/test_cryomotl.py", "C07": "tests/test_cryomotl.py,tests/test_ioutils.py", "C10": "tests/test_cryomotl.py", "C12": "tests/test_cryomap.py,tests/test_cryomask.py",
-         "C14": "tests/test_cryomap.py", "C16": "tests/test_tiltstack.py", "C17": "tests/test_ioutils.py,tests/test_wedgeutils.py", "C18": "tests/test_geom.py", "C19": "tests/test_geom.py"}
+         "C02": "tests/test_starfileio.py,tests/test_cryomotl.py,tests/test_wedgeutils.py,tests/test_ioutils.py", "C04": "tests/test_cryomotl.py,tests/test_wedgeutils.py,tests/test_starfileio.py", "C07": "tests/test_cryomotl.py,tests/test_pana.py,tests/test_geom.py", "C10": "tests/test_cryomotl.py", "C12": "tests/test_cryomap.py,tests/test_cryomask.py,tests/test_pana.py",
+         "C14": "tests/test_cryomap.py,tests/test_cryomask.py,tests/test_geom.py,tests/test_wedgeutils.py,tests/test_pana.py", "C16": "tests/test_tiltstack.py,tests/test_ioutils.py", "C17": "tests/test_ioutils.py,tests/test_wedgeutils.py,tests/test_tiltstack.py,tests/test_starfileio.py", "C18": "tests/test_geom.py,tests/test_cryomotl.py,tests/test_pana.py", "C19": "tests/test_geom.py,tests/test_cryomotl.py,tests/test_mathutils.py"}
 for prop in sys.argv[1:]:
     for m in ("m1", "m2"):
         src = f"/tmp/wt_{prop}/_seed/{m}"
